@@ -10,6 +10,18 @@ Property theorems only (helper lemmas: `CddVerif/Proofs/OpenApi.lean`, model: `C
 
 All theorems quantify over lists of ANY length; names, routes, ids are arbitrary strings subject to the stated
 hypotheses (`'/' ∉ name` is what makes `#/components/schemas/<name>` a JSON pointer to the key `<name>`).
+
+| clause of the statement                         | `emit.openapi`                 | `openapi_bulk` on `gen_routes` output                       |
+|-------------------------------------------------|--------------------------------|-------------------------------------------------------------|
+| every `$ref` resolves                           | `refs_closed` (full)           | `bulk_closed` (partial: key hypothesis), `bulk_full_false`, `bulk_key_not_closed`, `bulk_key_collision` (negations) |
+| every request body referenced is defined        | `request_bodies_defined` (full)| part of `bulk_closed`; `body_key_is_name`                   |
+| operations = requested                          | `ops_exact` (full)             | `bulk_ops_exact` (one batch per file); `bulk_appended_batch_lost` (negation) |
+| template parameters declared                    | `params_declared` (full)       | `bulk_params_declared`                                      |
+| routes fed back describe the same model         | `schemas_describe_models`      | `bulk_roundtrip`                                            |
+| routes can be generated at all                  |                                | `gen_routes_undocumented_column_raises` (negation)          |
+
+"serialisable JSON" holds by construction in the model (`J` has string keys and JSON leaves only); on the real
+dicts it is checked by the harness oracle (`json.loads(json.dumps(doc)) == doc`).
 -/
 namespace C16
 open Py OpenApi
@@ -136,6 +148,41 @@ theorem bulk_key_not_closed :
       (genRoutes c!"rest_api" ⟨c!"FooBar", [], c!"/api/foo_bar", c!"id", c!"CRD"⟩))
       (fun doc => !closedB doc && dangling doc == [schemaRef c!"FooBar", schemaRef c!"FooBar", schemaRef c!"FooBar"]) = true := by
   decide
+
+/-- The full statement for `openapi_bulk`, i.e. `bulk_closed` WITHOUT the key hypothesis (only: every class has a
+    table in the model files).  It is FALSE for the unchanged code (`bulk_full_false`); `bulk_closed` is the partial
+    result, the missing part being exactly `title(tablename.replace("_tbl","",1)) = class name`. -/
+def C16_bulk_full : Prop :=
+  ∀ (app : Str) (ts : List Table) (es : List Entry) (routes : List RouteFn),
+    (∀ r ∈ routes, ∃ e ∈ es, ∃ a, r ∈ genRoutes a e) → (∀ e ∈ es, '/' ∉ e.name) → es.length ≤ ts.length →
+    (∀ t ∈ ts, refsKvs t.schema = []) → ∀ doc, bulk app ts routes = .ok doc → Closed doc
+
+theorem bulk_full_false : ¬ C16_bulk_full := by
+  intro H
+  have hw : okAnd (bulk c!"rest_api" [⟨c!"foo_bar", [(c!"type", .str c!"object")]⟩]
+      (genRoutes c!"rest_api" ⟨c!"FooBar", [], c!"/api/foo_bar", c!"id", c!"CRD"⟩)) (fun doc => !closedB doc) = true := by decide
+  cases hb : bulk c!"rest_api" [⟨c!"foo_bar", [(c!"type", .str c!"object")]⟩]
+      (genRoutes c!"rest_api" ⟨c!"FooBar", [], c!"/api/foo_bar", c!"id", c!"CRD"⟩) with
+  | error e => rw [hb] at hw; simp [okAnd] at hw
+  | ok doc =>
+    rw [hb] at hw
+    simp only [okAnd] at hw
+    have hc := H _ _ [⟨c!"FooBar", [], c!"/api/foo_bar", c!"id", c!"CRD"⟩] _
+      (fun r hr => ⟨_, List.mem_cons_self, c!"rest_api", hr⟩) (by decide) (by decide) (by decide) doc hb
+    have : closedB doc = true := by
+      unfold closedB; rw [List.all_eq_true]; exact hc
+    simp [this] at hw
+
+/-- **Negation on a witness (known finding C16-bulk-key-collision; same root cause, other symptom).**  Classes `Foo`
+    (`__tablename__ = "foos"`) and `foo` (`__tablename__ = "foo"`): the key derived from the *other* table is `Foo`, so
+    every `#/components/schemas/Foo` written for class `Foo` resolves — to the schema of class `foo`. -/
+theorem bulk_key_collision :
+    okAnd (bulk c!"rest_api" [⟨c!"foos", [(c!"description", .str c!"Plural table.")]⟩, ⟨c!"foo", [(c!"description", .str c!"Lower-case class.")]⟩]
+      (genRoutes c!"rest_api" ⟨c!"Foo", [], c!"/api/foos", c!"id", c!"CR"⟩ ++ genRoutes c!"rest_api" ⟨c!"foo", [], c!"/foo", c!"slug", c!"CD"⟩))
+      (fun doc => (doc.refs.contains (schemaRef c!"Foo")) &&
+        (match getPath doc [c!"components", c!"schemas", c!"Foo"] with
+         | some v => v.beq (.obj [(c!"description", .str c!"Lower-case class.")])
+         | none => false)) = true := by decide
 
 /-! ### `gen_routes` → `openapi_bulk` for any number of models, one upsert batch per routes file
 
